@@ -2,6 +2,7 @@ package main
 
 import (
 	"fmt"
+	"github.com/gobuffalo/plush/v5"
 	"strings"
 )
 
@@ -243,6 +244,28 @@ func init() {
 				}
 				if o.Class != "PARSEERR" || (want != 0 && first != want) || !sorted {
 					e.Violate("c15-wrong-line", fmt.Sprintf("%q (faulty tag on line %d): %s, error lines %v, first line %q", tmpl, k+1, o.Class, o.Lines, firstLine(o.Msg)), map[string]interface{}{"case": c, "observed": o})
+				}
+			}
+		}
+		// a helper that IGNORES the failure of its block (calls Block() and returns normally): a later failure
+		// in the same tag, or in a later tag, names its own line, not that of the tolerated statement in the block
+		{
+			extra := map[string]interface{}{"swallow": func(h plush.HelperContext) string { _, _ = h.Block(); return "s" },
+				"failing": func(s string) (string, error) { return "", fmt.Errorf("boom") }}
+			for _, t := range []struct {
+				src  string
+				line int
+			}{{"a\n<%= failing(swallow() { %>\n\n<%= undefinedThing.Foo() %>\n<% }) %>", 2}, {"a\n<%= swallow() { %>\n<%= xs[99] %>\n<% } %>\n<%= failing(\"x\") %>", 5},
+				{"<%= swallow() { %>\n<%= 1 + \"a\" %>\n<% } + undefinedThing %>", 1}, {"\n\n<% let q = swallow() { %>\n<%= nope.Field %>\n<% } %>\n<% q = q + failing(q) %>", 6}} {
+				for _, k := range []int{0, 3} {
+					tm := strings.Repeat("\n", k) + t.src
+					o := runRenderExtra(RCase{Tmpl: tm, Binds: binds}, extra)
+					e.rep.Evaluations++
+					e.Count("ignored-block-failure")
+					e.Distinct(tm)
+					if o.Class != "ERR" || o.Line != t.line+k {
+						e.Violate("c15-wrong-line", fmt.Sprintf("%q: %s, error reports line %d, the failing tag begins on line %d (%s)", tm, o.Class, o.Line, t.line+k, firstLine(o.Msg)), map[string]interface{}{"tmpl": tm, "observed": o})
+					}
 				}
 			}
 		}
